@@ -8,6 +8,21 @@ VERIF = vfdriver.VERIF
 ALL = ["C%02d" % i for i in range(1, 21)]
 
 META = {
+    "C01": dict(
+        technique="stateful property-based testing (rapidcheck): generated query histories over 1-3 live worlds; differential oracle = twin world answering stand-alone requests, list reversal/duplication, reverse replay of the history; bitwise comparison",
+        text="Generated worlds (all feature types, deterministic models, operations) and histories of batched 2D/3D requests; every block must be bit-identical to the stand-alone answer of a twin world, the announced size must be returned, and re-issuing the history backwards must reproduce every answer. In-process crashes of the library are captured and replayed (natively, then under valgrind).",
+        note="Random models excluded (C15). Trusted: the twin-world construction; rapidcheck's generators for reproducibility.",
+        design="DESIGN.md section 4, C01"),
+    "C02": dict(
+        technique="property-based testing (rapidcheck): metamorphic deletion/permutation of non-covering features (coverage decided by single-feature worlds) + reference fold of uniform models with operations",
+        text="Generated stacks of 2-7 overlapping features. (1) Deleting or moving features that do not contain the point must not change any value bitwise nor the tag string; (2) temperature/composition must equal background + in-order fold of the covering features' uniform models with replace / replace defined only / add / subtract and per-model depth ranges; (3) tag string of the last covering feature; grains and slab/fault velocity pass-through.",
+        note="Coverage is decided by the code itself on single-feature worlds. Two genuine defects are listed as known findings (slab/fault z-velocity seed, quaternion averaging of untouched grains).",
+        design="DESIGN.md section 4, C02"),
+    "C03": dict(
+        technique="property-based testing (rapidcheck): closed-form background oracle on points constructed outside every feature; forced-surface-temperature invariant over all batchings",
+        text="Generated worlds with arbitrary global constants, both coordinate systems, points far from every feature by construction (and any point the code itself tags -1), depths incl. 0, negative and huge, any property list: temperature must equal Tp*exp(alpha*g*d/cp) to 1e-13, everything else exactly the background. With forcing on, every temperature slot at depth 0 equals the surface temperature inside and outside features.",
+        note="Closed form evaluated in double; 'outside' by construction or by the code's own tag.",
+        design="DESIGN.md section 4, C03"),
     "C19": dict(
         technique="property-based testing (rapidcheck): brute-force / exact-integer / dense-sampling oracles for kd-tree, polygon test, Bezier closest point, spherical conversions, great-circle distance; complete enumeration of small lattice polygons",
         text="Generated search with shrinking over node sets, lattice polygons (random and exhaustive on small lattices), trench polylines and point pairs; each kernel is compared with its definition computed independently (brute force, exact __int128-free integer arithmetic, dense sampling, atan2 formula). Finds wrong answers on the explored inputs; does not prove absence.",
